@@ -1,6 +1,8 @@
 package main
 
 import (
+	"bytes"
+	"encoding/gob"
 	"encoding/json"
 	"fmt"
 	"sync/atomic"
@@ -417,7 +419,7 @@ func checkC10(c *Ctx) {
 	}
 	nEncProgs := len(progs)
 	progs = append(progs, c10StructuredProgs()...)
-	c.Rule = fmt.Sprintf("(a) %d programs: for every implemented encoding the program enc;enc;enc from 2 base states, plus %d structured programs (self-modifying code, LDIR over its own code, block instructions, loops, calls, prefix chains, IM switches, each also with NMI/IM1/IM2/IM0 requests at 3 boundaries); for each program of N Steps: a second fresh CPU from the same initial state, and for EVERY boundary k in 1..N-1 a fresh CPU value rebuilt from copies of States, HALT, the pending request, memory and device, must follow the original Step for Step (States, HALT, pending, memory digest after every Step); one CPU value reused across all programs must behave like a fresh one; all ordered pairs enc1;enc2 of implemented encodings (quick: every 4th as enc1) with a snapshot between the two instructions. (b) for every implemented encoding: 2 CPUs on their own memories execute it at the same time with different register/memory data, scheduling points inside every memory/port callback, ALL interleavings enumerated by the controlled scheduler (no preemption bound), plus 2-Step programs with a point between Steps at preemption bound 2; each CPU's final state and access trace must equal its solo run; both CPUs accepting a request at the same time (7 request kinds) in 3 variants: own request objects, ONE request object handed to both CPUs, CPU 1 a by-value copy of CPU 0 made after CPU 0 served such a request; two CPUs without IO device. (c) first-use pass: every implemented encoding as the very first instruction of 2 fresh processes, then swept against refz80 in that process (no dependence on process history); a recovery scenario in a process of its own (a device panic during a mode-0 instruction on one CPU, recovered; then both CPUs accept mode-0 requests: each reaches its own memory only, the process survives); the request constructors give every caller storage of its own (all 256 bytes; in-place edits and appends do not reach other requests). Non-trivial: snapshots at k>=1 and schedules with at least one context switch (counted).", len(progs), len(progs)-nEncProgs)
+	c.Rule = fmt.Sprintf("(a) %d programs: for every implemented encoding the program enc;enc;enc from 2 base states, plus %d structured programs (self-modifying code, LDIR over its own code, block instructions, loops, calls, prefix chains, IM switches, each also with NMI/IM1/IM2/IM0 requests at 3 boundaries); for each program of N Steps: a second fresh CPU from the same initial state, and for EVERY boundary k in 1..N-1 a fresh CPU value rebuilt from copies of States, HALT, the pending request, memory and device, must follow the original Step for Step (States, HALT, pending, memory digest after every Step); one CPU value reused across all programs must behave like a fresh one; all ordered pairs enc1;enc2 of implemented encodings (quick: every 4th as enc1) with a snapshot between the two instructions. (b) for every implemented encoding: 2 CPUs on their own memories execute it at the same time with different register/memory data, scheduling points inside every memory/port callback, ALL interleavings enumerated by the controlled scheduler (no preemption bound), plus 2-Step programs with a point between Steps at preemption bound 2; each CPU's final state and access trace must equal its solo run; both CPUs accepting a request at the same time (7 request kinds) in 3 variants: own request objects, ONE request object handed to both CPUs, CPU 1 a by-value copy of CPU 0 made after CPU 0 served such a request; two CPUs without IO device. (c) first-use pass: every implemented encoding as the very first instruction of 2 fresh processes, then swept against refz80 in that process (no dependence on process history); a recovery scenario in a process of its own (a device panic during a mode-0 instruction on one CPU, recovered; then both CPUs accept mode-0 requests: each reaches its own memory only, the process survives); States round-trips through encoding/json (into a States value that held other data) and encoding/gob; the request constructors give every caller storage of its own (all 256 bytes; in-place edits and appends do not reach other requests). Non-trivial: snapshots at k>=1 and schedules with at least one context switch (counted).", len(progs), len(progs)-nEncProgs)
 	c.Bound = "every snapshot point; all interleavings of 2 single-Step CPUs; 2-Step programs at preemption bound 2 (thorough: 3)"
 	type pair struct{ a, b *c10Machine }
 	pairs := make([]*pair, 16)
@@ -690,6 +692,7 @@ func checkC10(c *Ctx) {
 		runEnvSense(c, "c10/environment")
 		c06Constructors(c)
 		runRecoverScenario(c, "c10/recovery")
+		c10Serialise(c)
 	}
 	c.Exhaustive = true
 	c.Sample(c10Prog{Name: progs[nEncProgs].Name, PC: 0x0100, Steps: progs[nEncProgs].Steps, K: 5})
@@ -757,4 +760,55 @@ func replayC10Isolation(c *Ctx, raw []byte) []string {
 		return nil
 	}
 	return []string{"unknown encoding"}
+}
+
+// c10Serialise: "a CPU rebuilt from copies of States ..." - a copy made through encoding/json or encoding/gob
+// is a copy. States round-trips through both into a States value that held other data before (a save-state
+// loaded into a machine in use): every field takes the saved value, false and 0 included.
+func c10Serialise(c *Ctx) {
+	var n int64
+	for k := 0; k < 6; k++ {
+		var st z80.States
+		if k < 4 {
+			b := baseVector(k)
+			var cpu z80.CPU
+			toCPU(&b.S, &cpu)
+			st = cpu.States
+		}
+		if k == 4 {
+			st.IFF1, st.IM = true, 2 // the rest zero
+		}
+		// k == 5: all zero
+		for _, codec := range []string{"json", "gob"} {
+			dirtyBase := baseVector((k + 1) % 4)
+			var dcpu z80.CPU
+			toCPU(&dirtyBase.S, &dcpu)
+			dirty := dcpu.States
+			dirty.IFF1, dirty.IFF2, dirty.IM = true, true, 2
+			var err error
+			switch codec {
+			case "json":
+				var raw []byte
+				if raw, err = json.Marshal(st); err == nil {
+					err = json.Unmarshal(raw, &dirty)
+				}
+			case "gob":
+				var buf bytes.Buffer
+				if err = gob.NewEncoder(&buf).Encode(st); err == nil {
+					fresh := z80.States{}
+					if err = gob.NewDecoder(&buf).Decode(&fresh); err == nil {
+						dirty = fresh // gob omits zero fields by design: decoding into a fresh value is its contract
+					}
+				}
+			}
+			n++
+			if err != nil || dirty != st {
+				x, y := fromCPU(&z80.CPU{States: st}), fromCPU(&z80.CPU{States: dirty})
+				c.Report("c10/serialise:"+codec, int64(k), "", map[string]interface{}{"codec": codec, "states": stateMap(&x)}, []string{fmt.Sprintf("States saved with encoding/%s and loaded into a States value that held other data: error %v; saved %v ; loaded %v", codec, err, stateMap(&x), stateMap(&y))})
+			}
+		}
+	}
+	c.Evaluations += n
+	c.Traces += n
+	c.Nontrivial += n
 }
